@@ -152,6 +152,29 @@ PROPERTIES['C17'] = dict(
 )
 
 
+# ------------------------------------------------------------------ unit posix
+def posix_goals():
+    kw = dict(replace=[], unwind=12, unwind_only=('v_strchr',), timeout=600)
+    return [enforce('posix', f, **kw) for f in ('ParseInt', 'ParseOffset', 'ParseDateTime')]
+
+
+PROPERTIES['C16'] = dict(
+    goals=posix_goals,
+    level_text='Unbounded proof (texts of any length up to the 4096-byte symbolic buffer, no unwinding of the digit loop: it carries a loop invariant and a decreases clause) '
+               'for the three field parsers of src/time_zone_posix.cc: ParseInt consumes at least one digit, stops at a non-digit inside the text, never overflows and '
+               'returns a value in [min, max] or fails leaving *vp untouched; ParseOffset returns sign * (h:m:s) with hours in the given range; ParseDateTime on success '
+               'has assigned the WHOLE transition - date form J / N / M with every field in its POSIX range and the time within +-167:59:59 - for an arbitrary initial '
+               'content of the result, i.e. no field of an accepted rule is left as the caller found it; all reads stay inside the NUL-terminated text.',
+    level_note='PARTIAL. Decided: definedness and ranges of every date/time field of an accepted rule, memory safety and absence of overflow of the three parsers. NOT decided: '
+               'ParseAbbr and the top-level ParsePosixSpec (std::string model + abbreviation loops), hence not the full "accepted if and only if in the grammar" '
+               'equivalence, nor the default dst offset.  The decimal VALUE read by ParseInt is pinned only to its range, not to the digits.',
+    trusted_base=['/verif/stubs/prelude.h', 'v_strchr: executable model of strchr (contracts/posix.h), its loop unwound to the length of the literal it searches',
+                  'text model: the parser argument is the start of a fresh NUL-terminated buffer (is_fresh); callees are verified inline, not through contracts'],
+    not_decided='ParseAbbr, ParsePosixSpec: grammar equivalence for whole strings; digit-exact value of ParseInt',
+    assumptions=['symbolic text buffer of at most 4096 bytes (sizes the allocation only)'],
+)
+
+
 # ------------------------------------------------------------------ unit zone
 ZONE_LEMMAS = ['lemma_epoch', 'lemma_secrepr', 'lemma_osec_lex', 'lemma_prepost']
 ZD = dict(defines=['OSEC_OPAQUE'])     # the kernel sees the second ordinal of a civil second as an opaque symbol (contracts/civil.h)
@@ -162,7 +185,8 @@ def zone_lemmas():
 
 
 def zone_c01_goals():
-    return zone_lemmas() + [enforce('zone', f, timeout=400, **ZD) for f in ('LocalTime_TransitionType', 'LocalTime_Transition', 'BreakTime')]
+    return zone_lemmas() + [enforce('zone', f, timeout=400, **ZD) for f in ('LocalTime_TransitionType', 'LocalTime_Transition', 'BreakTime')] + \
+           [enforce('rule', 'TransOffset', timeout=300, backends=('sat', 'cvc5bv'))]
 
 
 MT_INLINE = ('ct_lt', 'ct_le', 'ct_gt', 'ct_ge', 'MakeUnique_tp', 'MakeUnique_unix')   # tiny bodies: verified inline rather than through their contracts
@@ -211,7 +235,8 @@ PROPERTIES['C01'] = dict(
     level_text='Proof, for every table satisfying the stated well-formedness at the touched rows, every int64 instant and every hint value, that BreakTime returns the '
                'offset, DST flag and abbreviation of the default type before the first row, of the last row\'s type at or after it, and otherwise of the row gz_i with '
                'unix_time[gz_i] <= t < unix_time[gz_i+1], and that the civil second returned has second ordinal t + offset + epoch (LocalTime: two-step addition without overflow).',
-    level_note='Kernel only. NOT decided: TimeZoneInfo::Load (TZif decoding, validation, default-type choice), ExtendTransitions / the POSIX footer, and the 400-year shift for '
+    level_note='Lookup kernel plus the footer date arithmetic: TransOffset is proved against a relational POSIX specification of Jn / n / Mm.w.d dates (unit rule, contracts/rule.h). '
+               'NOT decided: TimeZoneInfo::Load (TZif decoding, validation, default-type choice), the year loop of ExtendTransitions, and the 400-year shift for '
                'instants beyond the last row (precondition !extended_). The table invariants are assumed, not proved to be established by Load.',
     trusted_base=ZONE_TRUSTED, not_decided='Load, ExtendTransitions/footer rules, 400-year shift (extended_) - assumed or excluded', assumptions=ZONE_ASSUME,
 )
